@@ -91,6 +91,13 @@ impl Verdicts {
         }
     }
 
+    /// Everything reported so far as (signature, replay) documents: a child process that runs part of a check under
+    /// another environment hands its reports to the parent this way (the parent matches them against the known findings).
+    pub fn reports_json(&self) -> Vec<Value> {
+        let inner = self.inner.lock().unwrap();
+        inner.violations.iter().map(|(_, doc)| doc.clone()).collect()
+    }
+
     pub fn violation_count(&self) -> u64 {
         self.inner.lock().unwrap().violation_sigs.values().sum()
     }
